@@ -7,6 +7,14 @@ import (
 
 // ApplyFilter applies a filter to a value
 func (ctx *RenderContext) ApplyFilter(name string, value interface{}, args ...interface{}) (interface{}, error) {
+	// Inside a sandbox every filter application is checked against the security
+	// policy here, whatever syntactic position it was written in (any place of a
+	// filter chain, a for sequence, an apply block, ...)
+	if ctx.sandboxed && ctx.env != nil && ctx.env.securityPolicy != nil &&
+		!ctx.env.securityPolicy.IsFilterAllowed(name) {
+		return nil, NewFilterViolation(name)
+	}
+
 	// Look for the filter in the environment
 	if ctx.env != nil {
 		if filter, ok := ctx.env.filters[name]; ok {
